@@ -166,6 +166,11 @@ def run(ctx) -> None:
         n = rng.choice([3, 4, 4, 5, 5, 6])
         comp = rng.choice([c for c in comps if not (c == "sam_apx_1000" and n > 3) and not (c == "sam_apx_100" and n > 4)])
         fam, values = game_for(rng, n, comp)
+        if rng.random() < 0.04:
+            boundcore.poison(ctx, n, [comp])
+        if rng.random() < 0.15:
+            k2 = rng.choice([-40, -20, 20, 40])
+            values = [v * 2.0 ** k2 for v in values]
         if rng.random() < 0.3 and n <= 5:
             ex = list(range((1 << n) - n - 2))
             rng.shuffle(ex)
